@@ -9,7 +9,7 @@ const X = require('../oracles/exec')
 const { norm } = require('../oracles/erase')
 
 async function build (tier) {
-  const r = F.all(tier, { families: ['A', 'B', 'C', 'G'] })
+  const r = F.all(tier, { families: ['A', 'B', 'C', 'G', 'M'] })
   return {
     leaves: r.leaves,
     stats: r.stats,
@@ -65,6 +65,11 @@ async function check (leaf, resps, ctx) {
       break
     }
   }
+  // sloppy-mode leak: an assignment to an undeclared injected name creates a global the input never had
+  try {
+    const gi = new Set(Object.getOwnPropertyNames(inCtx)); const leaked = Object.getOwnPropertyNames(outCtx).filter((k) => !gi.has(k) && k !== '_ddiast')
+    if (leaked.length) res.violations.push({ rule: 'global-leak', sig: sigOf(leaf, 'leak'), detail: `running the content created global(s) ${leaked.join(',')} that running the input does not create\n${code.split('\n').slice(-2).join('\n')}` })
+  } catch (e) {}
   res.evaluations = n
   if (res.violations.length) res.outcome = 'violation'
   res.sample = { program: code.split('\n').slice(4).join('\n'), config: leaf.config, envs: envs.length }
